@@ -357,6 +357,10 @@ def power_divergence(X, Y, Z, data, boolean=True, lambda_="cressie-read", **kwar
             f"The variables X or Y can't be in Z. Found {X if X in Z else Y} in Z."
         )
 
+    # The documented spelling of the Freeman-Tukey statistic; scipy spells it "freeman-tukey".
+    if lambda_ == "freeman-tuckey":
+        lambda_ = "freeman-tukey"
+
     # Step 2: Do a simple contingency test if there are no conditional variables.
     if len(Z) == 0:
         chi, p_value, dof, expected = stats.chi2_contingency(
